@@ -12,7 +12,7 @@ from vpkit.checks import c13
 
 ID = "C11"
 N = {"quick": 90, "thorough": 4000}
-BUDGET = {"quick": 240.0, "thorough": 1500.0}
+BUDGET = {"quick": 240.0, "thorough": 700.0}
 RULE = ("case = (contemporaneous zoo input, method, grid/eps/space, one random renumbering of "
         "non-sample nodes and one random order-preserving re-timing); distinct by (topology hash, "
         "method, options, permutation); non-trivial = both related runs returned and were compared")
